@@ -73,6 +73,22 @@ def onSet (s : St) (h : Str) (f : List Str → List Str × Out) : St × Out :=
   | some (.set x) => ({ s with store := upd s.store h (some (.set (f x).1)) }, (f x).2)
   | _ => (s, .err)
 
+/-- read the vector behind `h` (no change of state); anything else: error -/
+def readVec (s : St) (h : Str) (g : List Str → Out) : St × Out :=
+  match s.store h with
+  | some (.vec l) => (s, g l)
+  | _ => (s, .err)
+
+def readMap (s : St) (h : Str) (g : List (Str × Str) → Out) : St × Out :=
+  match s.store h with
+  | some (.map m) => (s, g m)
+  | _ => (s, .err)
+
+def readSet (s : St) (h : Str) (g : List Str → Out) : St × Out :=
+  match s.store h with
+  | some (.set x) => (s, g x)
+  | _ => (s, .err)
+
 /-! plain containers -/
 
 def lookup : List (Str × Str) → Str → Option Str
@@ -170,9 +186,12 @@ def releaseAll (f : Store → Str → Option (Store × Bool)) : List Str → Sto
     | some (σ', _) => releaseAll f cs σ'
 
 /-- release `h` and, transitively, every live handle stored in what is released
-    (`none` = fuel exhausted) -/
+    (`none` = fuel exhausted; fuel is consumed only when a live handle is released) -/
 def releaseRec : Nat → Store → Str → Option (Store × Bool)
-  | 0, _, _ => none
+  | 0, σ, h =>
+    match σ h with
+    | none => some (σ, false)
+    | some _ => none
   | fuel + 1, σ, h =>
     match σ h with
     | none => some (σ, false)
@@ -185,7 +204,8 @@ def okTrue : Out → Out
   | .err => .err
 
 /-- expected state and output of every command.  `fuel` bounds the recursive release only
-    (the refinement theorem supplies the number of live handles + 1). -/
+    (`C12_refines`: the answers do not depend on it once it is at least the number of live
+    handles). -/
 def exec (fuel : Nat) (s : St) (c : CollCmd) (args : List Str) : St × Out :=
   match c, args with
   -- constructors
@@ -215,8 +235,8 @@ def exec (fuel : Nat) (s : St) (c : CollCmd) (args : List Str) : St × Out :=
      | some n => onVec s h fun l => if n < l.length then (l.eraseIdx n, .val (some yes)) else (l, .err)
      | none => (s, .err))
   | .arrayClear, h :: _ => onVec s h fun _ => ([], .val (some yes))
-  | .arrayLength, h :: _ => onVec s h fun l => (l, .val (some (nat l.length)))
-  | .arrayIsEmpty, h :: _ => onVec s h fun l => (l, .val (some (bool l.isEmpty)))
+  | .arrayLength, h :: _ => readVec s h fun l => .val (some (nat l.length))
+  | .arrayIsEmpty, h :: _ => readVec s h fun l => .val (some (bool l.isEmpty))
   | .arrayContains, h :: v :: _ =>
     (match s.store h with
      | some (.vec l) =>
@@ -224,7 +244,7 @@ def exec (fuel : Nat) (s : St) (c : CollCmd) (args : List Str) : St × Out :=
         | some i => (s, .val (some (nat i)))
         | none => (s, .val (some no)))
      | _ => (s, .val (some no)))
-  | .arrayJoin, h :: sep :: _ => onVec s h fun l => (l, .val (some (join sep l)))
+  | .arrayJoin, h :: sep :: _ => readVec s h fun l => .val (some (join sep l))
   | .arrayConcat, hs =>
     (match vecs? s.store hs with
      | some ls => alloc s (.vec ls.flatten)
@@ -233,22 +253,22 @@ def exec (fuel : Nat) (s : St) (c : CollCmd) (args : List Str) : St × Out :=
   | .mapPut, h :: k :: v :: _ => onMap s h fun m => (put m k v, .val (some yes))
   | .mapGet, h :: k :: _ => onMap s h fun m => (m, .val (lookup m k))
   | .mapRemove, h :: k :: _ => onMap s h fun m => (del m k, .val (lookup m k))
-  | .mapSize, h :: _ => onMap s h fun m => (m, .val (some (nat m.length)))
+  | .mapSize, h :: _ => readMap s h fun m => .val (some (nat m.length))
   | .mapClear, h :: _ => onMap s h fun _ => ([], .val (some yes))
   | .mapKeys, h :: _ =>
     (match s.store h with
      | some (.map m) => alloc s (.vec (ascending (m.map Prod.fst)))
      | _ => (s, .err))
-  | .mapContainsKey, h :: k :: _ => onMap s h fun m => (m, .val (some (bool (lookup m k).isSome)))
-  | .mapContainsValue, h :: v :: _ => onMap s h fun m => (m, .val (some (bool ((m.map Prod.snd).contains v))))
-  | .mapIsEmpty, h :: _ => onMap s h fun m => (m, .val (some (bool m.isEmpty)))
+  | .mapContainsKey, h :: k :: _ => readMap s h fun m => .val (some (bool (lookup m k).isSome))
+  | .mapContainsValue, h :: v :: _ => readMap s h fun m => .val (some (bool ((m.map Prod.snd).contains v)))
+  | .mapIsEmpty, h :: _ => readMap s h fun m => .val (some (bool m.isEmpty))
   -- sets
   | .setPut, h :: vs => onSet s h fun x => (addAll x vs, .val (some yes))
   | .setRemove, h :: v :: _ => onSet s h fun x => (x.filter (· ≠ v), .val (some (bool (x.contains v))))
   | .setContains, h :: v :: _ => onSet s h fun x => (x, .val (some (bool (x.contains v))))
-  | .setSize, h :: _ => onSet s h fun x => (x, .val (some (nat x.length)))
+  | .setSize, h :: _ => readSet s h fun x => .val (some (nat x.length))
   | .setClear, h :: _ => onSet s h fun _ => ([], .val (some yes))
-  | .setIsEmpty, h :: _ => onSet s h fun x => (x, .val (some (bool x.isEmpty)))
+  | .setIsEmpty, h :: _ => readSet s h fun x => .val (some (bool x.isEmpty))
   | .setToArray, h :: _ =>
     (match s.store h with
      | some (.set x) => alloc s (.vec (ascending x))
